@@ -37,6 +37,9 @@ pub struct Deal {
 	/// reserved inputs / change (key id hex, value), read from the private context
 	pub inputs: Vec<(String, u64)>,
 	pub change: Vec<(String, u64)>,
+	/// the inputs as they were when the reservation step succeeded (a later repeat
+	/// of the pay step may rewrite the context without reserving anything)
+	pub reserved: Vec<(String, u64)>,
 	pub m1: usize,
 	pub m2: Option<usize>,
 	pub m3: Option<usize>,
@@ -125,6 +128,7 @@ impl Model {
 					proof: s.payment_proof.is_some(),
 					inputs: vec![],
 					change: vec![],
+					reserved: vec![],
 					m1: m,
 					m2: None,
 					m3: None,
@@ -167,6 +171,7 @@ impl Model {
 					proof: false,
 					inputs: vec![],
 					change: vec![],
+					reserved: vec![],
 					m1: m,
 					m2: None,
 					m3: None,
@@ -220,7 +225,15 @@ impl Model {
 				if let Some(d) = self.deal_of_msg(run, *m) {
 					self.deals[d].lock_count += 1;
 					if self.deals[d].payer == Some(*w) {
+						let first = !self.deals[d].locked;
 						self.deals[d].locked = true;
+						if first {
+							let id = self.deals[d].id;
+							if let Some(ctx) = run.ex.world.get_context(*w, id.as_bytes()) {
+								self.deals[d].reserved =
+									ctx.input_ids.iter().map(|(k, _, v)| (k.to_hex(), *v)).collect();
+							}
+						}
 					}
 				}
 			}
